@@ -191,7 +191,7 @@ def gen_spec(rng: random.Random, kind: str, big: bool = False, fmt=None):
         n = rnframes(rng, big)
         nt = rnitems(rng, 4)
         return {"t": kind, "format": 1, "frequency": ri32(rng), "startTime": rf32(rng), "nFrames": n,
-                "map": rchannels(rng, nt),
+                "map": rchannels(rng, nt, hi=65535),   # unsigned 16-bit on both sides
                 "plats": [{"frames": rframes(rng, rmask(rng, n), 6)} for _ in range(nt)]}
     if kind == "platCal":
         nt = rnitems(rng, 5)
